@@ -17,3 +17,39 @@ Theorem parsers_agree_on_printed_addresses : forall gs, wf gs ->
   exists gs', pton (ntop gs) false false = Res (length (ntop gs)) None gs' /\ AddrRef.ref_pton (ntop gs) = Some gs'.
 Proof. exact pton_agrees_with_ref. Qed.
 Print Assumptions parsers_agree_on_printed_addresses.
+
+(* every CIDR or wildcard text yields the documented prefix length and network bits, for ALL component values *)
+Require Import Cidr.
+Import ListNotations.
+Theorem ipv4_cidr_text : forall a b c d n, a < 256 -> b < 256 -> c < 256 -> d < 256 -> n <= 32 ->
+  pton (cidr4_text a b c d n) true false =
+  Res (length (cidr4_text a b c d n)) (Some (96 + n)) [0; 0; 0; 0; 0; 65535; a * 256 + b; c * 256 + d].
+Proof. exact cidr4. Qed.
+Print Assumptions ipv4_cidr_text.
+
+Theorem ipv4_wildcard_text : forall a b k, a < 256 -> b < 256 ->
+  pton (wild4_2_text a b k) true false = Res (length (wild4_2_text a b k)) (Some (96 + 16)) [0; 0; 0; 0; 0; 65535; a * 256 + b; 0].
+Proof. exact wild4_2. Qed.
+Print Assumptions ipv4_wildcard_text.
+
+Theorem star_text : forall k, pton (repeat star (S k)) true false = Res (S k) (Some 0) zeros.
+Proof. exact star_run. Qed.
+Print Assumptions star_text.
+
+Theorem ipv6_cidr_text : forall gs n, length gs = 8%nat -> Forall Cidr.small gs -> n <= 128 ->
+  pton (cidr6_text gs n) true false = Res (length (cidr6_text gs n)) (Some n) gs.
+Proof. exact cidr6_plain. Qed.
+Print Assumptions ipv6_cidr_text.
+
+Theorem ipv6_compressed_cidr_text : forall pre post n,
+  (length pre + length post <= 7)%nat -> Forall Cidr.small pre -> Forall Cidr.small post -> n <= 128 ->
+  pton (cidr6c_text pre post n) true false =
+  Res (length (cidr6c_text pre post n)) (Some n) (pre ++ repeat 0 (8 - length pre - length post) ++ post).
+Proof. exact cidr6_compressed. Qed.
+Print Assumptions ipv6_compressed_cidr_text.
+
+Theorem ipv6_wildcard_text : forall pre k, (1 <= length pre <= 7)%nat -> Forall Cidr.small pre ->
+  pton (wild6_text pre k) true false =
+  Res (length (wild6_text pre k)) (Some (16 * N.of_nat (length pre))) (pre ++ repeat 0 (8 - length pre)).
+Proof. exact wild6_run. Qed.
+Print Assumptions ipv6_wildcard_text.
